@@ -1,7 +1,9 @@
-(* C11: state files are crash-consistent; the binary stream reads back what it wrote
-   (statements only; proofs in MemStreamProofs.v and CrashProofs.v). *)
+(* C11: state files are crash-consistent; a text state cut inside an object's block is an error; the
+   binary stream reads back what it wrote
+   (statements only; proofs in MemStreamProofs.v, CrashProofs.v and StateReadProofs.v). *)
 From Coq Require Import NArith List Bool Lia.
-From CV Require Import C11.MemStreamModel C11.MemStreamProofs C11.CrashModel C11.CrashProofs.
+From CV Require Import C11.MemStreamModel C11.MemStreamProofs C11.CrashModel C11.CrashProofs
+  C11.StateReadModel C11.StateReadProofs.
 Import ListNotations.
 Open Scope N_scope.
 
@@ -175,6 +177,39 @@ Theorem C11_error_tolerant_continuing_refuted :
 Proof. vm_compute. split; reflexivity. Qed.
 Print Assumptions C11_error_tolerant_continuing_refuted.
 
+(* ===================== (c) the text state reader ===================== *)
+
+(* "A state cut in the middle of an object's block is reported as an error rather than accepted."
+   Token-level model of read_state_template_ / read_objects_state / colvar::read_state /
+   colvarbias::read_state_template_ / read_block, for ANY set of configured variables and biases and ANY
+   type-specific readers (set_state_params, read_state_data) that, when they leave the stream good and
+   report nothing, have consumed whole brace-balanced pieces only (data_wellformed):
+   whenever the reader's loop gets to an object keyword followed by "{" such that the block is never
+   closed in the rest of the file (unclosed: the file ends inside the block, wherever that is, whatever
+   the last, possibly mutilated, word is), and the block is claimed by a configured object (a variable
+   is configured, resp. a bias of that keyword exists and, if the block's own configuration sub-block is
+   intact, it names a configured bias), the load reports an error. *)
+Theorem C11_cut_in_block_is_error :
+  forall (cv_ok : N -> list tok -> bool) (params_ok : bias -> list tok -> bool)
+         (read_data : bias -> list tok -> option (list tok) * bool)
+         (colvars : list N) (biases : list bias),
+  data_wellformed read_data ->
+  forall (l0 : list tok) (kw : N) (b : list tok),
+  arrives cv_ok params_ok read_data colvars biases (objects_part l0) (TW kw :: TO :: b) ->
+  unclosed 1 b = true -> claimed colvars biases kw b ->
+  load cv_ok params_ok read_data colvars biases l0 = true.
+Proof. exact cut_in_block_is_error. Qed.
+Print Assumptions C11_cut_in_block_is_error.
+
+(* the same for the concrete readers that the correspondence check runs against the C++ (variables,
+   restraints without extra data, metadynamics with a list of hills): the assumption is proved for them *)
+Theorem C11_cut_in_block_is_error_concrete : forall (colvars : list N) (biases : list bias) (l0 : list tok) (kw : N) (b : list tok),
+  arrives cv_ok_c params_ok_c read_data_c colvars biases (objects_part l0) (TW kw :: TO :: b) ->
+  unclosed 1 b = true -> claimed colvars biases kw b ->
+  load_c colvars biases l0 = true.
+Proof. exact cut_in_block_is_error_c. Qed.
+Print Assumptions C11_cut_in_block_is_error_concrete.
+
 (* non-vacuity *)
 Example C11_example_roundtrip :
   let l := [IObj [1;2;3;4]; IStr [97;98;99]; IVec 8 [[1;0;0;0;0;0;0;0]; [2;0;0;0;0;0;0;0]]; IVec 3 [[1;2;3]; [4;5;6]]] in
@@ -218,3 +253,36 @@ Example C11_example_error_tolerant :
   rs = [Done true; Done false] /\ completed rs = true /\ safe (m_fs m) = true /\
   m_trace m = [SAccess; SOpen; SWrite 100; SClose; SAccess; SRename].
 Proof. vm_compute. repeat split; reflexivity. Qed.
+
+(* (c) is not vacuous.  Words: 0 configuration, 1 colvar, 2 name, 3 hill, 4 x, 10 step, 11 restraint, 12 harmonic,
+   13 metadynamics, 20 "d", 21 "h", 22 "m", 30.. numbers.  The state: global block, variable d, restraint h,
+   metadynamics m with two hills; cut inside the second hill. *)
+Definition ex_biases : list bias := [mkB 11 12 21 0; mkB 13 13 22 1].
+Definition ex_head : list tok :=
+  [TW 0; TO; TW 10; TW 30; TC;
+   TW 1; TO; TW 2; TW 20; TW 4; TW 31; TC;
+   TW 11; TO; TW 0; TO; TW 10; TW 30; TW 2; TW 21; TC; TC].
+Definition ex_meta_body (cut : bool) : list tok :=
+  [TW 0; TO; TW 10; TW 30; TW 2; TW 22; TC;
+   TW 3; TO; TW 10; TW 32; TC;
+   TW 3; TO; TW 10] ++ (if cut then [] else [TW 33; TC; TC]).
+Example C11_example_cut_in_block :
+  let l0 := ex_head ++ TW 13 :: TO :: ex_meta_body true in
+  arrives cv_ok_c params_ok_c read_data_c [20] ex_biases (objects_part l0) (TW 13 :: TO :: ex_meta_body true) /\
+  unclosed 1 (ex_meta_body true) = true /\ claimed [20] ex_biases 13 (ex_meta_body true) /\
+  load_c [20] ex_biases l0 = true /\
+  load_c [20] ex_biases (ex_head ++ TW 13 :: TO :: ex_meta_body false) = false.
+Proof.
+  cbv zeta. split; [|split; [|split; [|split]]].
+  - eapply arr_next; [vm_compute; reflexivity|].
+    eapply arr_next; [vm_compute; reflexivity|].
+    apply arr_here.
+  - vm_compute. reflexivity.
+  - right. split; [vm_compute; discriminate|]. split.
+    + exists (mkB 13 13 22 1). split; [right; left; reflexivity | vm_compute; reflexivity].
+    + intros conf r2 v Hrb Hl. vm_compute in Hrb. inversion Hrb; subst conf r2.
+      vm_compute in Hl. inversion Hl; subst v.
+      exists (mkB 13 13 22 1). split; [right; left; reflexivity|]. split; vm_compute; reflexivity.
+  - vm_compute. reflexivity.
+  - vm_compute. reflexivity.
+Qed.
